@@ -283,17 +283,56 @@ Proof. intros W x Hx. apply (wf_env_host_ok _ _ W Hx). Qed.
 Lemma resolved_entry tasks bm b n c a ex :
   wf_env tasks -> env_bindmap tasks = Some bm -> In b tasks -> In (n, mk_ep c a) (t_local b) ->
   assoc (bind_key (t_path b) n) bm = Some ex ->
-  ep_address ex = conn_addr (t_host b) c a /\ ep_transport ex = i_tr c.
+  ep_address ex = conn_addr (t_host b) c a /\ ep_transport ex = i_tr c /\ is_ipc_ep ex = i_ipc c.
 Proof.
-  intros W B Hb Hi As. destruct (is_alias_key n) eqn:A.
+  intros W B Hb Hi As.
+  assert (Ipc_mk : is_ipc_ep (mk_ep c a) = i_ipc c) by (unfold mk_ep; destruct (i_ipc c); reflexivity).
+  assert (Ipc_tt : forall h e, is_ipc_ep (to_target h e) = is_ipc_ep e) by (intros h [? ? ?|? ?]; reflexivity).
+  destruct (is_alias_key n) eqn:A.
   - rewrite bind_key_alias in As by exact A.
     destruct (env_bindmap_alias _ _ _ _ _ (wf_all_path_ok _ W) (wf_all_host_ok _ W) B Hb Hi A) as (ex' & E & Ad & Tr).
+    destruct (env_bindmap_alias_entry _ _ _ _ _ (wf_all_path_ok _ W) B Hb Hi A) as (ex2 & E2 & D).
     rewrite E in As. inversion As; subst ex'. rewrite Ad, Tr.
-    rewrite address_target_mk_ep by (apply (wf_env_host_ok _ _ W Hb)). rewrite transport_mk_ep. split; reflexivity.
+    rewrite address_target_mk_ep by (apply (wf_env_host_ok _ _ W Hb)). rewrite transport_mk_ep.
+    split; [reflexivity|]. split; [reflexivity|].
+    rewrite E in E2. inversion E2; subst ex2. destruct D as [->| ->]; [rewrite Ipc_tt|]; exact Ipc_mk.
   - rewrite bind_key_path in As by exact A. apply local_In_assoc in Hi.
     rewrite (env_bindmap_path _ _ _ _ _ W B Hb Hi A) in As. inversion As; subst ex.
     rewrite address_target_mk_ep by (apply (wf_env_host_ok _ _ W Hb)).
-    rewrite transport_to_target, transport_mk_ep. split; reflexivity.
+    rewrite transport_to_target, transport_mk_ep, Ipc_tt. repeat split; try reflexivity. exact Ipc_mk.
+Qed.
+
+(* with fresh IPC paths an alias key has one writer in an accepted environment map *)
+Lemma alias_writer_unique ws bm j1 j2 w1 w2 k e1 e2 :
+  wf_env (map task_of ws) -> fresh_ipc ws -> env_bindmap (map task_of ws) = Some bm ->
+  nth_error ws j1 = Some w1 -> nth_error ws j2 = Some w2 -> is_alias_key k = true ->
+  In (k, e1) (t_local (task_of w1)) -> In (k, e2) (t_local (task_of w2)) -> j1 = j2.
+Proof.
+  intros W Fr B H1 H2 A L1 L2. destruct (Nat.eq_dec j1 j2) as [E|Ne]; [exact E|exfalso].
+  assert (Go : forall ja jb wa wb ea eb, (ja < jb)%nat -> nth_error ws ja = Some wa -> nth_error ws jb = Some wb ->
+                 In (k, ea) (t_local (task_of wa)) -> In (k, eb) (t_local (task_of wb)) -> False).
+  { intros ja jb wa wb ea eb Lt Ha Hb La Lb.
+    pose proof (map_nth_error task_of _ _ Ha) as Na. pose proof (map_nth_error task_of _ _ Hb) as Nb.
+    destruct (nth_error_two _ _ _ _ _ Na Nb Lt) as (pre & mid & post & E).
+    pose proof W as W'. pose proof B as B'. rewrite E in W', B'.
+    destruct (env_from_alias_two pre (task_of wa) mid (task_of wb) post bm k ea eb
+                (wf_all_path_ok _ W') (wf_all_host_ok _ W') B' A La Lb) as (p & tr & Xa & Xb).
+    pose proof La as La'. pose proof Lb as Lb'.
+    apply local_In_assoc in La'. apply local_bindmap_inv in La'. destruct La' as (ia & ca & Hca & _ & Ea).
+    apply local_In_assoc in Lb'. apply local_bindmap_inv in Lb'. destruct Lb' as (ib & cb & Hcb & _ & Eb).
+    rewrite Ea in Xa. rewrite Eb in Xb. unfold mk_ep in Xa, Xb.
+    destruct (i_ipc ca) eqn:Pa; [|discriminate]. destruct (i_ipc cb) eqn:Pb; [|discriminate].
+    inversion Xa. inversion Xb.
+    apply (Fr ja jb wa wb ia ib ca cb Ha Hb); try assumption; [lia|congruence]. }
+  destruct (Nat.lt_total j1 j2) as [Lt|[Eq|Gt]]; [|contradiction|].
+  - apply (Go j1 j2 w1 w2 e1 e2 Lt H1 H2 L1 L2).
+  - apply (Go j2 j1 w2 w1 e2 e1 Gt H2 H1 L2 L1).
+Qed.
+
+Lemma existsb_nth_false {A} (f : A -> bool) l : existsb f l = false -> forall x, In x l -> f x = false.
+Proof.
+  intros H x Hx. destruct (f x) eqn:E; [|reflexivity].
+  assert (existsb f l = true) by (apply existsb_exists; exists x; split; assumption). congruence.
 Qed.
 
 Section Model.
@@ -304,12 +343,14 @@ Section Model.
   Variables (ps : list props) (bm : bindmap).
   Hypothesis B : env_bindmap ts = Some bm.
   Hypothesis AP : all_props bm ts = Some ps.
+  Hypothesis Fr : fresh_ipc ws.
+  Hypothesis NX : existsb (cross_ipc ts bm) ts = false.
 
   Let wpp := combine (combine ws ps) (map (fun w => mports (task_of w)) ws).
   Let bs := binders_of wpp.
 
   Lemma model_configure : configure ts = Some ps.
-  Proof. unfold configure. rewrite B. exact AP. Qed.
+  Proof. unfold configure. rewrite B, NX. exact AP. Qed.
 
   Lemma wpp_in w pr pt :
     In (w, pr, pt) wpp ->
@@ -400,7 +441,7 @@ Section Model.
   Qed.
 
   Lemma check_out_model w pr pt d :
-    In (w, pr, pt) wpp -> w_chans w = true -> In d (eff_out w) -> check_out bs pr d = 0.
+    In (w, pr, pt) wpp -> w_chans w = true -> In d (eff_out w) -> check_out bs (w_host w) pr d = 0.
   Proof.
     intros Hin C Hd. destruct (wpp_in _ _ _ Hin) as (j & Hw & Hp & ->).
     destruct (clean_facts w (Cl w (nth_error_In _ _ Hw))) as (_ & _ & [ND _] & _ & _ & I2).
@@ -411,8 +452,16 @@ Section Model.
     - inversion Po; subst p. rewrite str_eqb_refl. cbn [negb]. rewrite !str_eqb_refl. reflexivity.
     - destruct (assoc (o_target d) bm) as [ex|] eqn:As; [|discriminate]. inversion Po; subst p.
       rewrite str_eqb_refl. cbn [negb].
-      assert (X : existsb (good_hit (ep_address ex) (ep_transport ex)) (hits_of bs d) = true); [|rewrite X; reflexivity].
-      apply existsb_exists.
+      assert (X : exists b, In b (hits_of bs d) /\ good_hit (ep_address ex) (ep_transport ex) b = true /\
+                            (has_prefix s_ipc (ep_address ex) = true -> binder_host b = w_host w)).
+      2: { destruct X as (b & Hb & Gb & Hh).
+           assert (X1 : existsb (good_hit (ep_address ex) (ep_transport ex)) (hits_of bs d) = true)
+             by (apply existsb_exists; exists b; split; assumption).
+           rewrite X1. destruct (has_prefix s_ipc (ep_address ex)) eqn:Pi; [|reflexivity].
+           assert (X2 : existsb (fun b0 => good_hit (ep_address ex) (ep_transport ex) b0 &&
+                                           str_eqb (binder_host b0) (w_host w)) (hits_of bs d) = true).
+           { apply existsb_exists. exists b. split; [exact Hb|]. rewrite Gb, (Hh eq_refl). apply str_eqb_refl. }
+           rewrite X2. reflexivity. }
       unfold env_bindmap in B. destruct (env_from_keys _ _ _ _ _ B As) as [X|(b & Hb & n & ep & Hi & Bk)];
         [exfalso; apply X; reflexivity|]. fold (env_bindmap ts) in B.
       apply in_map_iff in Hb. destruct Hb as (wb & <- & Hwb). destruct (In_nth_error _ _ Hwb) as (jb & Hjb).
@@ -420,7 +469,7 @@ Section Model.
       pose proof Hi as Hi'. apply local_In_assoc in Hi'. apply local_bindmap_inv in Hi'.
       destruct Hi' as (i & c & Hc & [T S] & ->).
       destruct (clean_facts wb (Cl wb Hwb)) as (_ & _ & Nokb & _).
-      exists (mports (task_of wb), wb, prb, c). split.
+      exists (mports (task_of wb), wb, prb, c). split; [|split].
       + apply filter_In. split; [apply (binder_intro jb); [assumption|assumption|apply (nth_error_In _ _ Hc)]|].
         unfold target_hits, target_names. apply nonempty_false in T. rewrite T. cbn [negb andb].
         destruct S as [S|[Gl S]]; subst n.
@@ -429,7 +478,7 @@ Section Model.
         * rewrite bind_key_alias in Bk by apply alias_key_is_alias. rewrite <- Bk, str_eqb_refl.
           apply nonempty_true in Gl. rewrite Gl. apply orb_true_r.
       + rewrite <- Bk in As.
-        destruct (resolved_entry ts bm (task_of wb) n c _ ex W B (in_map task_of _ _ Hwb) Hi As) as [Ad Tr].
+        destruct (resolved_entry ts bm (task_of wb) n c _ ex W B (in_map task_of _ _ Hwb) Hi As) as (Ad & Tr & _).
         unfold good_hit. rewrite Ad, Tr. change (t_host (task_of wb)) with (w_host wb).
         destruct (w_chans wb) eqn:Cb.
         * rewrite (told_assoc jb wb prb (i_name c) Hjb Hpb Cb).
@@ -441,6 +490,41 @@ Section Model.
             with ((s_tcp ++ w_host wb ++ s_colon) ++ dec (fst (t_alloc (task_of wb) i)))
             by (rewrite <- !app_assoc; reflexivity).
           rewrite drop_prefix_app. apply port_in_intro. apply (mports_In (task_of wb) n c); assumption.
+      + (* an IPC endpoint: the binder runs on the connecting task's host *)
+        intro Pi. cbn [binder_host]. pose proof As as As'. rewrite <- Bk in As'.
+        destruct (resolved_entry ts bm (task_of wb) n c _ ex W B (in_map task_of _ _ Hwb) Hi As') as (Ad & _ & Ic).
+        assert (Ip : i_ipc c = true).
+        { destruct (i_ipc c) eqn:Q; [reflexivity|]. rewrite Ad in Pi. unfold conn_addr in Pi. rewrite Q in Pi.
+          cbn in Pi. discriminate. }
+        (* the cross-host check passed for this task and channel *)
+        assert (KH : key_host ts (o_target d) = Some (w_host w)).
+        { pose proof (existsb_nth_false _ _ NX (task_of w) (in_map task_of _ _ (nth_error_In _ _ Hw))) as Xw.
+          unfold cross_ipc in Xw. change (t_chans (task_of w)) with (w_chans w) in Xw. rewrite C in Xw.
+          cbn [andb] in Xw. pose proof (existsb_nth_false _ _ Xw d Hd) as Xd. cbv beta in Xd.
+          rewrite As, Ic, Ip in Xd. cbn [andb] in Xd. apply negb_false_iff in Xd.
+          destruct (key_host ts (o_target d)) as [h|]; [|discriminate]. cbn [option_eqb] in Xd.
+          apply str_eqb_spec in Xd. change (t_host (task_of w)) with (w_host w) in Xd. congruence. }
+        (* the recorded host is that of this binder *)
+        assert (Wk : writes_key (task_of wb) (o_target d)) by (exists n, (mk_ep c (t_alloc (task_of wb) i)); split; assumption).
+        destruct (is_alias_key (o_target d)) eqn:Ak.
+        * unfold key_host in KH. rewrite Ak in KH.
+          destruct (find (fun t => writes_keyb t (o_target d)) ts) as [t2|] eqn:F; [|discriminate].
+          apply find_some in F. destruct F as [Ht2 W2]. apply writes_keyb_spec in W2.
+          apply in_map_iff in Ht2. destruct Ht2 as (w2 & <- & Hw2). destruct (In_nth_error _ _ Hw2) as (j2 & Hj2).
+          destruct W2 as (n2 & ep2 & Hi2 & Bk2).
+          assert (n2 = o_target d).
+          { destruct (is_alias_key n2) eqn:A2; [rewrite bind_key_alias in Bk2 by exact A2; exact Bk2|].
+            rewrite bind_key_path in Bk2 by exact A2. rewrite <- Bk2 in Ak.
+            rewrite path_key_not_alias in Ak by (apply (wf_env_path_ok _ _ W), in_map, Hw2). discriminate. }
+          assert (n = o_target d).
+          { destruct (is_alias_key n) eqn:A1; [rewrite bind_key_alias in Bk by exact A1; exact Bk|].
+            rewrite bind_key_path in Bk by exact A1. rewrite <- Bk in Ak.
+            rewrite path_key_not_alias in Ak by (apply (wf_env_path_ok _ _ W), in_map, Hwb). discriminate. }
+          subst n n2.
+          assert (j2 = jb) by (apply (alias_writer_unique ws bm j2 jb w2 wb (o_target d) _ _ W Fr B Hj2 Hjb Ak Hi2 Hi)).
+          subst j2. assert (w2 = wb) by congruence. subst w2. cbn [option_map] in KH. inversion KH. reflexivity.
+        * rewrite (key_host_path ts (task_of wb) (o_target d) W (in_map task_of _ _ Hwb) Ak Wk) in KH.
+          inversion KH. reflexivity.
   Qed.
 End Model.
 
@@ -608,7 +692,7 @@ Lemma monitor_silent_on_accepted ws ps :
 Proof.
   intros [W Fr] Cf. unfold mon_env. destruct (forallb w_clean ws) eqn:Cl; [|reflexivity]. cbn [negb].
   pose proof (forallb_clean _ Cl) as Cl'.
-  unfold configure_wf, configure in Cf. destruct (env_bindmap (map task_of ws)) as [bm|] eqn:B; [|discriminate].
+  unfold configure_wf in Cf. destruct (configure_some _ _ Cf) as (bm & B & NX & AP). clear Cf. rename AP into Cf.
   pose proof (all_props_length _ _ _ Cf) as Lp. rewrite map_length in Lp.
   assert (Lc : length (combine (map (fun w => t_local (task_of w)) ws) ps) = length ws).
   { rewrite combine_length, map_length, Lp. apply Nat.min_id. }
@@ -650,12 +734,12 @@ Lemma monitor_silent_on_refused ws ports :
 Proof.
   intros W Cf. unfold mon_env. destruct (forallb w_clean ws) eqn:Cl; [|reflexivity]. cbn [negb].
   pose proof (forallb_clean _ Cl) as Cl'.
-  assert (X : unmatched_in ws || invalid_in ws || alias_twice ws = true); [|rewrite X; reflexivity].
+  assert (X : unmatched_in ws || invalid_in ws || alias_twice ws || cross_ipc_in ws = true); [|rewrite X; reflexivity].
   destruct (fails_only_for_cause _ (wf_all_path_ok _ W) Cf)
     as [(t & o & Ht & C & Ho & Ex & Hn)|[(t & c & Ht & C & Hc & T & Ex)|[(t & Ht & AD)|
-        (j1 & j2 & b1 & b2 & k & e1 & e2 & Lt & N1 & N2 & A & L1 & L2)]]].
+        [(j1 & j2 & b1 & b2 & k & e1 & e2 & Lt & N1 & N2 & A & L1 & L2)|(bm & t & B & Ht & X)]]]].
   - (* unmatched target *)
-    apply orb_true_iff. left. apply orb_true_iff. left.
+    apply orb_true_iff. left. apply orb_true_iff. left. apply orb_true_iff. left.
     apply in_map_iff in Ht. destruct Ht as (w & <- & Hw).
     destruct (clean_facts w (Cl' w Hw)) as (_ & _ & _ & _ & _ & I2).
     unfold unmatched_in. apply existsb_exists. exists w. split; [exact Hw|].
@@ -670,14 +754,14 @@ Proof.
     apply (Hn (task_of w3) e (in_map task_of _ _ Hw3) He').
     apply target_hits_names; [apply (PL e He')|exact Th].
   - (* invalid inbound target *)
-    apply orb_true_iff. left. apply orb_true_iff. right.
+    apply orb_true_iff. left. apply orb_true_iff. left. apply orb_true_iff. right.
     apply in_map_iff in Ht. destruct Ht as (w & <- & Hw).
     destruct (clean_facts w (Cl' w Hw)) as (_ & _ & _ & I1 & _).
     unfold invalid_in. apply existsb_exists. exists w. split; [exact Hw|].
     apply andb_true_iff. split; [exact C|]. apply existsb_exists. exists c. split; [apply I1, Hc|].
     unfold invalid_target. rewrite Ex. apply nonempty_true in T. rewrite T. reflexivity.
   - (* alias twice in one task *)
-    apply orb_true_iff. right. unfold alias_twice. apply orb_true_iff. left.
+    apply orb_true_iff. left. apply orb_true_iff. right. unfold alias_twice. apply orb_true_iff. left.
     apply in_map_iff in Ht. destruct Ht as (w & <- & Hw). cbn [task_of t_in] in AD.
     destruct (forallb (N.eqb 0) (codes9 ws)) eqn:F; [exfalso|reflexivity].
     rewrite forallb_forall in F.
@@ -687,7 +771,7 @@ Proof.
     apply F. unfold codes9. apply in_map_iff. exists w. split; [|exact Hw].
     rewrite (clean_globals w (Cl' w Hw)), AD. reflexivity.
   - (* alias in two tasks *)
-    apply orb_true_iff. right. unfold alias_twice. apply orb_true_iff. right.
+    apply orb_true_iff. left. apply orb_true_iff. right. unfold alias_twice. apply orb_true_iff. right.
     destruct (nth_error_map_inv _ _ _ _ N1) as (w1 & Hw1 & <-).
     destruct (nth_error_map_inv _ _ _ _ N2) as (w2 & Hw2 & <-).
     assert (Claim : forall w e, In w ws -> In (k, e) (t_local (task_of w)) ->
@@ -706,6 +790,51 @@ Proof.
     + apply (map_nth_error free_aliases _ _ Hw2).
     + apply free_alias_intro; assumption.
     + rewrite <- Eg. apply free_alias_intro; assumption.
+  - (* an IPC endpoint bound on another host *)
+    apply orb_true_iff. right.
+    apply in_map_iff in Ht. destruct Ht as (w & <- & Hw).
+    destruct (clean_facts w (Cl' w Hw)) as (_ & _ & _ & _ & _ & I2).
+    unfold cross_ipc in X. apply andb_true_iff in X. destruct X as [C X].
+    apply existsb_exists in X. destruct X as (o & Ho & X).
+    destruct (assoc (o_target o) bm) as [ep|] eqn:As; [|discriminate].
+    apply andb_true_iff in X. destruct X as [Ie X]. apply negb_true_iff in X.
+    (* the task whose host was recorded for the key *)
+    assert (Wr : exists t2, In t2 (map task_of ws) /\ writes_key t2 (o_target o) /\
+                            key_host (map task_of ws) (o_target o) = Some (t_host t2)).
+    { unfold env_bindmap in B. destruct (env_from_keys _ _ _ _ _ B As) as [Y|(b & Hb & Wb)];
+        [exfalso; apply Y; reflexivity|].
+      unfold key_host.
+      destruct (find (fun t => writes_keyb t (o_target o))
+                     (if is_alias_key (o_target o) then map task_of ws else rev (map task_of ws))) as [t2|] eqn:F.
+      - apply find_some in F. destruct F as [H2 W2]. exists t2. split.
+        + destruct (is_alias_key (o_target o)); [exact H2|apply in_rev in H2; exact H2].
+        + split; [apply writes_keyb_spec, W2|reflexivity].
+      - exfalso. apply writes_keyb_spec in Wb.
+        assert (Hb' : In b (if is_alias_key (o_target o) then map task_of ws else rev (map task_of ws))).
+        { destruct (is_alias_key (o_target o)); [exact Hb|apply in_rev in Hb; exact Hb]. }
+        pose proof (find_none _ _ F b Hb') as Y. cbv beta in Y. congruence. }
+    destruct Wr as (t2 & Ht2 & (n & ep2 & Hi & Bk) & KH). rewrite KH in X. cbn [option_eqb] in X.
+    apply in_map_iff in Ht2. destruct Ht2 as (w2 & <- & Hw2).
+    pose proof Hi as Hi'. apply local_In_assoc in Hi'. apply local_bindmap_inv in Hi'.
+    destruct Hi' as (i & c & Hc & [T S] & ->).
+    destruct (clean_facts w2 (Cl' w2 Hw2)) as (_ & _ & [_ PL] & I1 & _).
+    rewrite <- Bk in As.
+    destruct (resolved_entry _ bm (task_of w2) n c _ ep W B (in_map task_of _ _ Hw2) Hi As) as (_ & _ & Ic).
+    unfold cross_ipc_in. apply existsb_exists. exists w. split; [exact Hw|].
+    apply andb_true_iff. split; [exact C|]. apply existsb_exists. exists o. split; [apply I2, Ho|].
+    apply existsb_exists. exists ([], w2, [], c). split.
+    + apply filter_In. split.
+      * unfold binders_of. apply in_flat_map. exists (w2, [], []). split.
+        -- apply in_map_iff. exists w2. split; [reflexivity|exact Hw2].
+        -- apply in_map. apply I1, (nth_error_In _ _ Hc).
+      * unfold target_hits, target_names. apply nonempty_false in T. rewrite T. cbn [negb andb].
+        destruct S as [S|[Gl S]]; subst n.
+        -- rewrite bind_key_path in Bk by (apply PL, (nth_error_In _ _ Hc)).
+           rewrite <- Bk. change (w_path w2) with (t_path (task_of w2)). rewrite str_eqb_refl. reflexivity.
+        -- rewrite bind_key_alias in Bk by apply alias_key_is_alias. rewrite <- Bk, str_eqb_refl.
+           apply nonempty_true in Gl. rewrite Gl. apply orb_true_r.
+    + rewrite <- Ic, Ie. cbn [andb]. change (w_host w2) with (t_host (task_of w2)).
+      change (w_host w) with (t_host (task_of w)). rewrite X. reflexivity.
 Qed.
 
 (* the bridge: on the case the model itself produces, the monitor reports nothing *)
@@ -775,13 +904,14 @@ Qed.
 (* what a silent monitor says about the observed run (each code, read backwards)           *)
 (* ====================================================================================== *)
 (* codes 2, 3, 4, 1, 5, 6, 15: an outbound channel *)
-Lemma check_out_sound bs pr d :
-  check_out bs pr d = 0 ->
+Lemma check_out_sound bs host pr d :
+  check_out bs host pr d = 0 ->
   exists addr tr, assoc (o_name d) pr = Some (addr, m_connect, tr) /\
     (is_explicit (o_target d) = true -> addr = o_target d /\ tr = o_tr d) /\
     (is_explicit (o_target d) = false ->
      exists pt w prb e, In (pt, w, prb, e) bs /\ target_hits (o_target d) (w_path w) e = true /\
-                        good_hit addr tr (pt, w, prb, e) = true).
+                        good_hit addr tr (pt, w, prb, e) = true /\
+                        (has_prefix s_ipc addr = true -> w_host w = host)).
 Proof.
   unfold check_out. destruct (assoc (o_name d) pr) as [[[addr meth] tr]|].
   2: { destruct (negb (is_explicit (o_target d)) && negb (nonempty (hits_of bs d))); discriminate. }
@@ -792,8 +922,16 @@ Proof.
     apply andb_true_iff in E. destruct E as [E1 E2]. apply str_eqb_spec in E1, E2. split; assumption.
   - split; [discriminate|]. intros _.
     destruct (existsb (good_hit addr tr) (hits_of bs d)) eqn:G.
-    + apply existsb_exists in G. destruct G as ([[[pt w] prb] e] & Hb & G). unfold hits_of in Hb.
-      apply filter_In in Hb. destruct Hb as [Hb Th]. exists pt, w, prb, e. repeat split; assumption.
+    + destruct (has_prefix s_ipc addr) eqn:Pi; cbn [andb] in H.
+      * destruct (existsb (fun b => good_hit addr tr b && str_eqb (binder_host b) host) (hits_of bs d)) eqn:G2;
+          cbn [negb] in H; [|discriminate].
+        apply existsb_exists in G2. destruct G2 as ([[[pt w] prb] e] & Hb & G2). apply andb_true_iff in G2.
+        destruct G2 as [G2 Hh]. apply str_eqb_spec in Hh. cbn [binder_host] in Hh.
+        unfold hits_of in Hb. apply filter_In in Hb. destruct Hb as [Hb Th].
+        exists pt, w, prb, e. repeat split; try assumption. intros _. exact Hh.
+      * apply existsb_exists in G. destruct G as ([[[pt w] prb] e] & Hb & G). unfold hits_of in Hb.
+        apply filter_In in Hb. destruct Hb as [Hb Th]. exists pt, w, prb, e. repeat split; try assumption.
+        discriminate.
     + destruct (existsb (known_hit 5 addr tr) (named_by bs d)); [discriminate|].
       destruct (existsb (known_hit 6 addr tr) (named_by bs d)); [discriminate|].
       destruct (nonempty (hits_of bs d)); discriminate.
@@ -888,7 +1026,7 @@ Lemma monitor_silent_sound ws os ports :
   let wpp := combine (combine ws (map snd os)) (ports ++ repeat [] (length ws)) in
   let bs := binders_of wpp in
   (forall w pr pt, In (w, pr, pt) wpp -> w_chans w = true ->
-     (forall d, In d (eff_out w) -> check_out bs pr d = 0) /\
+     (forall d, In d (eff_out w) -> check_out bs (w_host w) pr d = 0) /\
      (forall e, In e (eff_in w) -> check_in pt pr e = 0)) /\
   (forall w, In w ws -> NoDup (globals_of (eff_in w))) /\
   cross_dup (map free_aliases ws) = false /\
@@ -920,9 +1058,10 @@ Qed.
 (* codes 12 (and 20): a refusal is justified by one of the causes the property names *)
 Lemma monitor_silent_refused_sound ws ports :
   forallb w_clean ws = true -> mon_env ws None ports = 0 ->
-  unmatched_in ws = true \/ invalid_in ws = true \/ alias_twice ws = true.
+  unmatched_in ws = true \/ invalid_in ws = true \/ alias_twice ws = true \/ cross_ipc_in ws = true.
 Proof.
   intros Cl H. unfold mon_env in H. rewrite Cl in H. cbn [negb] in H.
   destruct (unmatched_in ws); [left; reflexivity|]. destruct (invalid_in ws); [right; left; reflexivity|].
-  destruct (alias_twice ws); [right; right; reflexivity|discriminate].
+  destruct (alias_twice ws); [right; right; left; reflexivity|].
+  destruct (cross_ipc_in ws); [right; right; right; reflexivity|discriminate].
 Qed.
